@@ -100,7 +100,12 @@ structure S where
 def maxCache : Nat := 65536            -- maxWriteCacheOrFlushSize
 def maxSendfile : Nat := 4194304       -- maxSendfileSize
 
-def fileRange (g : Cfg) (off n : Nat) : Bytes := (List.range n).map fun i => g.file (off + i)
+/-- bytes `off … off+n-1` of the file, built back to front in one pass (the driver runs this on 4 MiB ranges);
+    `fileRange_eq`: it is `(List.range n).map fun i => g.file (off + i)` -/
+def fileRangeAux (g : Cfg) (off : Nat) : Nat → Bytes → Bytes
+  | 0, acc => acc
+  | n + 1, acc => fileRangeAux g off n (g.file (off + n) :: acc)
+def fileRange (g : Cfg) (off n : Nat) : Bytes := fileRangeAux g off n []
 
 def total (bs : List Bytes) : Nat := (bs.map List.length).sum
 
@@ -335,6 +340,25 @@ def evEnd (g : Cfg) (s : S) : S :=
   let s := if s.rearm then resetPollerEvent g { s with rearm := false } else s
   if s.evErr then (if s.closed then { s with evErr := false } else flipWE { s with evErr := false }) else s
 
+/-! The tail of an event consists of three separately scheduled actions of the poller goroutine; other
+goroutines may run between them. `evEnd` is their composition (`evEnd_eq` in Lemmas/ConnEvEnd.lean); the
+poller performs them in this order, hence the guards. -/
+
+/-- the tail of the connected callback: `c.onConnected = nil; c.resetRead()` under the mutex -/
+def evConnEnd (g : Cfg) (s : S) : S :=
+  if s.hung then s
+  else if s.connEv then cResetRead g { s with connecting := false, connEv := false } else s
+
+/-- `ResetPollerEvent` after the read part (or after a write-only event), ONESHOT -/
+def evRearm (g : Cfg) (s : S) : S :=
+  if s.hung || s.connEv then s
+  else if s.rearm then resetPollerEvent g { s with rearm := false } else s
+
+/-- `closeWithError(io.EOF)` for an event that carried an error part (its locked part) -/
+def evErrClose (s : S) : S :=
+  if s.hung || s.connEv || s.rearm then s
+  else if s.evErr then (if s.closed then { s with evErr := false } else flipWE { s with evErr := false }) else s
+
 /-- Close / CloseWithError: the locked part of closeWithError -/
 def flipClosed (s : S) : S := if s.hung || s.closed then s else flipWE s
 
@@ -430,6 +454,21 @@ def sendfileOp (g : Cfg) (s : S) (off len : Nat) (ks : List KAns) : S × Ret :=
   (ghost r.1 (s.edgeDue || (!s.hung && !s.closed && s.wl.isEmpty && sendfileRefused (sendRange g off len) ks))
     (s.early || isEarly s), r.2)
 
+/-- the kernel's answers as `Sendfile` acts on them when dup(2) of the source descriptor fails: a refused
+    request (EAGAIN, or the exhausted script) can not be queued and is fatal like any other error -/
+def denyDup1 : KAns → KAns
+  | .eagain => .fail
+  | k => k
+def denyDup (ks : List KAns) : List KAns := ks.map denyDup1 ++ [.fail]
+
+/-- `Sendfile` while dup(2) fails (descriptor table full). Behind a backlog the call fails before it queues
+    anything and the conn stays as it is; on the direct path it is `Sendfile` with the answers `denyDup ks`
+    (fixed code: the conn is closed with the error instead of dropping the remainder). No new `Op`: the call is
+    a stutter or the op `.sendfile off len (denyDup ks)`, see `sendfileNoDup_step`. -/
+def sendfileNoDupOp (g : Cfg) (s : S) (off len : Nat) (ks : List KAns) : S × Ret :=
+  if !s.hung && !s.closed && sendRange g off len != 0 && !s.wl.isEmpty then (s, ⟨0, .io⟩)
+  else sendfileOp g s off len (denyDup ks)
+
 /-- EPOLL_CTL_ADD reports the current readiness -/
 def registerOp (g : Cfg) (s : S) : S :=
   ghost (register g s) (s.edgeDue || (!s.hung && !s.reg && !s.closed)) s.early
@@ -458,6 +497,9 @@ inductive Op
   | registerDial
   | evTake (out inn err : Bool) (ks : List KAns)
   | evEnd
+  | evConnEnd
+  | evRearm
+  | evErrClose
   | flipClosed
   | teardown
   | setWriteDeadline (zero : Bool)
@@ -472,6 +514,9 @@ def step (g : Cfg) (s : S) : Op → S
   | .registerDial => registerDialOp g s
   | .evTake o i e ks => evTakeOp g s o i e ks
   | .evEnd => evEnd g s
+  | .evConnEnd => evConnEnd g s
+  | .evRearm => evRearm g s
+  | .evErrClose => evErrClose s
   | .flipClosed => flipClosed s
   | .teardown => teardown s
   | .setWriteDeadline z => setWriteDeadline s z
@@ -490,6 +535,17 @@ def Item.rest (g : Cfg) : Item → Bytes
 
 /-- the bytes still queued, in order -/
 def pending (g : Cfg) (wl : List Item) : Bytes := (wl.map (Item.rest g)).flatten
+
+/-- fold over a file range without building it (`foldFile_eq`); for the driver's hash of `pending` -/
+def foldFile {α : Type} (g : Cfg) (f : α → UInt8 → α) : Nat → Nat → α → α
+  | _, 0, a => a
+  | off, rem + 1, a => foldFile g f (off + 1) rem (f a (g.file off))
+
+/-- `(pending g wl).foldl f a` without building the list (`foldPending_eq`) -/
+def foldPending {α : Type} (g : Cfg) (f : α → UInt8 → α) : List Item → α → α
+  | [], a => a
+  | .buf d off :: tl, a => foldPending g f tl ((d.drop off).foldl f a)
+  | .file off rem :: tl, a => foldPending g f tl (foldFile g f off rem a)
 
 def Item.held : Item → Nat
   | .buf d off => d.length - off
